@@ -100,7 +100,14 @@ fn rel(reliable: bool) -> policy::Reliability {
 }
 
 impl WriterBench {
+  pub fn new_with_qos(qos: QosPolicies, writer_key: [u8; 3]) -> WriterBench {
+    let reliable = qos.is_reliable();
+    Self::build(WbCfg { reliable, history: -1, transient_local: false, frag_size: 0, writer_key }, Some(qos))
+  }
   pub fn new(cfg: WbCfg) -> WriterBench {
+    Self::build(cfg, None)
+  }
+  fn build(cfg: WbCfg, qos_override: Option<QosPolicies>) -> WriterBench {
     let e = env();
     let topic = WTOPIC.with(|t| t.clone());
     let mut qb = QosPolicyBuilder::new().reliability(rel(cfg.reliable));
@@ -110,7 +117,7 @@ impl WriterBench {
       _ => {}
     }
     qb = qb.durability(if cfg.transient_local { policy::Durability::TransientLocal } else { policy::Durability::Volatile });
-    let qos = qb.build();
+    let qos = qos_override.unwrap_or_else(|| qb.build());
 
     let writer_eid = EntityId::new(cfg.writer_key, EntityKind::WRITER_WITH_KEY_USER_DEFINED);
     let guid = GUID::new_with_prefix_and_id(e.dp.guid_prefix(), writer_eid);
@@ -182,6 +189,11 @@ impl WriterBench {
     let r = self.dw.write_with_options(v, wo.build()).map(|si| i64::from(si.sequence_number)).map_err(|e| format!("{e:?}"));
     (r, self.process_commands())
   }
+  /// DataWriter::write only: the command stays in the queue until the next
+  /// process_commands() (several commands then get drained in one batch).
+  pub fn write_deferred(&mut self, v: VSample) -> Result<i64, String> {
+    self.dw.write_with_options(v, WriteOptionsBuilder::new().build()).map(|si| i64::from(si.sequence_number)).map_err(|e| format!("{e:?}"))
+  }
   pub fn dispose(&mut self, key: u32, src_ts: Option<u64>) -> (Result<(), String>, Vec<Sent>) {
     let r = self.dw.dispose(&key, src_ts.map(Timestamp::from_ticks)).map_err(|e| format!("{e:?}"));
     (r, self.process_commands())
@@ -198,6 +210,14 @@ impl WriterBench {
     rp.unicast_locator_list = vec![Locator::from(addr)];
     self.writer.update_reader_proxy(&rp, &q);
   }
+  /// Match attempt with a full requested QoS; returns whether the reader is matched afterwards.
+  pub fn match_reader_qos(&mut self, guid: [u8; 16], requested: &QosPolicies, addr: SocketAddr) -> bool {
+    let mut rp = RtpsReaderProxy::new(GUID::from_bytes(guid), requested.clone(), false);
+    rp.unicast_locator_list = vec![Locator::from(addr)];
+    self.writer.update_reader_proxy(&rp, requested);
+    self.writer.vh_proxies().iter().any(|p| p.guid == guid)
+  }
+
   pub fn unmatch_reader(&mut self, guid: [u8; 16]) {
     self.writer.reader_lost(GUID::from_bytes(guid));
   }
